@@ -938,6 +938,14 @@ class Prog:
         self.eval_all()
         return idx
 
+    def join(self, src):
+        """JointDistribution(obj): a new joint assembled from a reduced single Distribution (which carries folded constants)"""
+        o = self.objs[src]
+        self.ops.append(("join", [src]))
+        idx = self.new(book=o["book"], flav="joint", expect=self.total, reduced=False)
+        self.eval_all()
+        return idx
+
     def stack(self, src):
         o = self.objs[src]
         self.ops.append(("stack", src))
@@ -971,6 +979,13 @@ def history_program(rng, fs, n, kind, order, fvalue, with_stack=True):
             continue
         P.cond(kdx, rng.sample(ps, rng.randint(1, len(ps))), positional=rng.random() < 0.3)
         break
+    # re-assembly: a reduced Distribution (with its folded constants) put into a NEW joint, which is reduced again
+    for kdx in kids:
+        if P.kind(kdx) == "dist" and P.params(kdx):
+            j = P.join(kdx)
+            P.cond(j, [])
+            P.cond(j, P.params(j))
+            break
     if not with_stack:
         P.cond(0, S)
         return P
@@ -1048,6 +1063,8 @@ def run_history(cuqi, start, names, vals, ops, facs=None):
                 o = do_call(objs[op[1]], names, vals, op[2])
             elif kind == "stack":
                 o = objs[op[1]]._as_stacked()
+            elif kind == "join":
+                o = cuqi.distribution.JointDistribution(*[objs[i] for i in op[1]])
             elif kind == "bpinit":
                 from cuqi.problem import BayesianProblem
                 bp = BayesianProblem(*facs, **{name_of(names, k): np.array(vals[j]) for k, j in op[2]})
@@ -1096,7 +1113,7 @@ def history_oracle(ops, res, total, rel=0):
                     return ("object %d is a Posterior; conditioning it on its own parameter by keyword raised" % op[1], SIG_POST_KW)
                 return ("object %d is a Posterior; conditioning it on its own parameter by keyword raised" % op[1], "condition-raised|posterior-keyword")
             return "conditioning object %d raised on a well-formed call" % op[1], "condition-raised|history"
-        if kind in ("stack", "bpinit") and r is None:
+        if kind in ("stack", "bpinit", "join") and r is None:
             return "%s on object %d raised" % (kind, op[1]), "condition-raised|" + kind
         if kind == "setdata":
             if op[3] and r is None:
@@ -1118,6 +1135,8 @@ def chop(vals, op, r, pre="q", cst=None):
         return "(%sCond %s %s %s)" % (pre, cnat(op[1]), ccall(vals, call), cst(r))
     if kind == "stack":
         return "(%sStack %s %s)" % (pre, cnat(op[1]), cst(r))
+    if kind == "join":
+        return "(%sJoin %s %s)" % (pre, clist([cnat(i) for i in op[1]]), cst(r))
     if kind == "setdata":
         return "(%sSetData %s %s %s)" % (pre, cnat(op[1]), clist(["(%s, %s)" % (cvar(k), cqval(vals[j])) for k, j in op[2]]), cst(r))
     if kind == "view":
@@ -1516,6 +1535,7 @@ def replay(ctx, meta):
             nobj += 1
             desc = {"cond": lambda: "object %d conditioned positional=%s keywords=%s" % (op[1], [names[j] for j in op[2]["args"]], [name_of(names, k) for k, _ in op[2]["kw"]]),
                     "stack": lambda: "object %d ._as_stacked()" % op[1],
+                    "join": lambda: "JointDistribution(object %s)" % op[1],
                     "bpinit": lambda: "BayesianProblem(*factors, %s)._target" % [name_of(names, k) for k, _ in op[2]],
                     "setdata": lambda: "problem of object %d .set_data(%s)._target" % (op[1], [name_of(names, k) for k, _ in op[2]]),
                     "view": lambda: "problem of object %d .%s" % (op[2], "likelihood" if op[1] == 0 else "prior")}[op[0]]()
